@@ -25,13 +25,17 @@ grammar-directed and random-byte lines, model vs `hdrv ucihex`).
   `isready` is still answered with `readyok`.
 * `goTokens_total`: `doGo`'s token scanner + deadline arithmetic on every token list.
 * `position_keeps_old`: a rejected FEN keeps the old position (also when followed by a move list).
-* `modelOps_opsTotalF`, `uciStep_total_model`, `session_total_model`: the same for the REAL engine operations
+* `modelOps_opsTotal`, `uciStep_total_model`, `session_total_model`: the same for the REAL engine operations
   (`modelOps`: `evaluate`, `perftDivide`, `tperftDivide`, `applyUciMove`, `parseFen` of the model) with NO hypothesis
-  about the operations left — they are total on `Total.G p := Inv p ∧ MM.OppSafe p` (Props/C18Total.lean). The
-  price is one more UCI precondition on the input (`PreF`): a FEN sent to the engine denotes a position in which the
-  side NOT to move is not in check. It cannot be dropped: `modelOps_opsTotal_false` — the hypothesis `OpsTotal` of
-  `uciStep_total` is unsatisfiable for the real operations, because the loader accepts
-  `4k3/8/8/8/8/8/8/4RK2 w - - 0 1` and `perft 3` on it panics (`fen_check_witness`).
+  about the operations left — they are total on `Total.G p := Inv p ∧ MM.OppSafe p` (Props/C18Total.lean), and `G`
+  holds of the start position, of every position the FEN loader accepts (C02.fen_inv, C08.fen_oppSafe) and after
+  every legal move. The precondition is the ORIGINAL `Pre` / `SessionPre` (listed moves legal) — nothing about FENs.
+  HISTORY: about the unrepaired engine the opposite was proved here — `modelOps_opsTotal_false : ¬ OpsTotal
+  (modelOps blend tostr) G Legal` for every `G`, `Legal`, through `fen_check_witness`: the loader accepted
+  `4k3/8/8/8/8/8/8/4RK2 w - - 0 1` (side not to move in check), the loaded position was well-formed, and `perft 3`
+  on it panicked — so the theorems for the real operations carried an extra precondition `PreF` ("a FEN sent to the
+  engine has the side not to move not in check"). The engine was repaired (the loader rejects such a FEN); both
+  negative theorems are false about the repaired model and were removed, the caveat is gone.
 * regression lines of the historical crashes, evaluated: `go depth`, `go wtime`, `go movestogo 0 wtime 1000`,
   `setoption name currmoveLogInterval value 0`, `eval` without a position, `position garbage moves e2e4`,
   `perft 250`, `perft -1`. -/
@@ -271,56 +275,55 @@ example (blend : Blend) (tostr : Position → M Bytes) :
 /-! ## the real engine operations: no hypothesis about the operations left
 
 `Total.G p := Inv p ∧ MM.OppSafe p` (well-formed, the side not to move is not in check). Legality of a listed move
-is `LegalGen`: the move string denotes a move of the pseudo-legal generator that `makeMove` accepts. `PreF` is `Pre`
-plus: the position a `position … fen …` line loads satisfies `MM.OppSafe` (void for every other line and for
-`startpos`). Definitions: `Magog/Lemmas/UciFen.lean`. -/
+is `LegalGen`: the move string denotes a move of the pseudo-legal generator that `makeMove` accepts. The
+precondition is `Pre` / `SessionPre` as for abstract operations. Definitions: `Magog/Lemmas/UciFen.lean`.
 
-open Magog.UciTotal in
-/-- FINDING. For the real operations the hypothesis `OpsTotal` of `uciStep_total` is unsatisfiable, whatever `G`
-    and `Legal`: the FEN loader accepts a position with the side not to move in check, on which `perft 3` panics. -/
-theorem modelOps_opsTotal_false {blend : Blend} {tostr : Position → M Bytes} {G : Position → Prop}
-    {Legal : Position → Move → Prop} : ¬ OpsTotal (modelOps blend tostr) G Legal :=
-  UciTotal.opsTotal_modelOps_false
+REMOVED (proved about the UNREPAIRED engine; they led to the repair of `NewPositionFromFen` and are false now):
+  `modelOps_opsTotal_false : ¬ OpsTotal (modelOps blend tostr) G Legal`   (for every `G`, `Legal`)
+  `fen_check_witness : ∃ p, parseFen (strBytes "4k3/8/8/8/8/8/8/4RK2 w - - 0 1") = .ok (.ok p) ∧ Inv p ∧
+      ¬ MM.OppSafe p ∧ ∃ e, perftDivide Killers.empty Gen.plyBufferCapacity p 3 = .error e`
+What is left of the witness: the loader rejects it (`fen_check_witness_rejected`), and the position itself, built
+directly, still shows that `Inv` alone does not make perft total (`UciTotal.checkWitness_perft_panics`). -/
 
-/-- the witness: accepted by the loader, well-formed, the side not to move (Black) is in check, `perft 3` panics -/
-theorem fen_check_witness : ∃ p, parseFen (strBytes "4k3/8/8/8/8/8/8/4RK2 w - - 0 1") = .ok (.ok p) ∧ Inv p ∧
-    ¬ MM.OppSafe p ∧ ∃ e, perftDivide Killers.empty Gen.plyBufferCapacity p 3 = .error e :=
-  UciTotal.fenCheckWitness_accepted
+/-- the former defect witness is rejected by the loader in an orderly way (see C08.fen_oppSafe) -/
+theorem fen_check_witness_rejected : parseFen (strBytes "4k3/8/8/8/8/8/8/4RK2 w - - 0 1") =
+    .ok (.error (.invalid "side not to move in check")) :=
+  UciTotal.fenCheckWitness_rejected
 
-/-- **The operations are total.** With the loader's output restricted to legal positions (`FenOk := MM.OppSafe`)
-    every field of `OpsTotalF` holds for the model of the engine — evaluation (C18Total.evaluate_total), both perft
-    drivers for every admitted depth (C18Total.perftDivide_total / tperftDivide_total), `ApplyUciMove` on legal
-    moves (C18Total.applyUciMove_total), the start position and loaded positions (C08 / C02) — for every `blend`
-    and every renderer `tostr`. -/
-theorem modelOps_opsTotalF (blend : Blend) (tostr : Position → M Bytes) :
-    OpsTotalF (modelOps blend tostr) Total.G LegalGen MM.OppSafe :=
-  Total.modelOps_opsTotalF blend tostr
+/-- **The operations are total.** Every field of `OpsTotal` holds for the model of the engine — evaluation
+    (C18Total.evaluate_total), both perft drivers for every admitted depth (C18Total.perftDivide_total /
+    tperftDivide_total), `ApplyUciMove` on legal moves (C18Total.applyUciMove_total), the start position, and EVERY
+    position the FEN loader accepts (C02.fen_inv, C08.fen_oppSafe) — for every `blend` and every renderer `tostr`. -/
+theorem modelOps_opsTotal (blend : Blend) (tostr : Position → M Bytes) :
+    OpsTotal (modelOps blend tostr) Total.G LegalGen :=
+  Total.modelOps_opsTotal blend tostr
 
 /-- **C17, one line, real operations.** For every byte string `line`, every well-formed state, under the UCI
-    precondition `PreF` (listed moves legal at their positions; a loaded FEN is a legal position) `ParseInputLine`
-    over the model of the engine returns normally and keeps the state well-formed. No operation hypotheses. -/
+    precondition `Pre` (listed moves legal at their positions — nothing else) `ParseInputLine` over the model of the
+    engine returns normally and keeps the state well-formed. No operation hypotheses, no condition on FENs. -/
 theorem uciStep_total_model (blend : Blend) (tostr : Position → M Bytes) {st : UciState}
     (hst : StateOk Total.G st) (line : Bytes)
-    (hpre : PreF (modelOps blend tostr) LegalGen MM.OppSafe st line) :
+    (hpre : Pre (modelOps blend tostr) LegalGen st line) :
     ∃ st' out, uciStep (modelOps blend tostr) st line = .ok (st', out) ∧ StateOk Total.G st' :=
-  uciStep_total_F (modelOps_opsTotalF blend tostr) hst line hpre
+  uciStep_total (modelOps_opsTotal blend tostr) hst line hpre
 
 /-- lines that are not `position` commands need no precondition at all -/
 theorem uciStep_total_model_of_not_position (blend : Blend) (tostr : Position → M Bytes) {st : UciState}
     (hst : StateOk Total.G st) {line : Bytes} (h : hasPrefix line Gen.uPosition_bytes = false) :
     ∃ st' out, uciStep (modelOps blend tostr) st line = .ok (st', out) ∧ StateOk Total.G st' :=
-  uciStep_total_model blend tostr hst line (preF_of_not_position h)
+  uciStep_total_model blend tostr hst line (pre_of_not_position h)
 
 /-- **C17, sessions, real operations.** From the state of a fresh process every finite list of byte strings
-    satisfying the precondition line by line is processed without panic. -/
+    whose `position … moves` commands list legal moves is processed without panic. -/
 theorem session_total_model (blend : Blend) (tostr : Position → M Bytes) (lines : List Bytes)
-    (hpre : SessionPreF (modelOps blend tostr) LegalGen MM.OppSafe UciState.init lines) :
+    (hpre : SessionPre (modelOps blend tostr) LegalGen UciState.init lines) :
     ∃ st' outs, uciRun (modelOps blend tostr) UciState.init lines = .ok (st', outs) ∧ StateOk Total.G st' ∧
       outs.length = lines.length :=
-  uciRun_total_F (modelOps_opsTotalF blend tostr) lines UciState.init (stateOk_init _) hpre
+  session_total (modelOps_opsTotal blend tostr) lines hpre
 
 /-- a concrete session on the real operations (blend = the midgame value, empty renderer): legal move lists incl.
-    double pushes and castling, a FEN with the side to move in check (legal), a rejected FEN followed by moves,
+    double pushes and castling, a FEN with the side to move in check (legal), the former witness FEN (side NOT to
+    move in check: now answered with `invalid FEN`, whatever follows it), a rejected FEN followed by moves,
     `tperft`, `eval` before any position, malformed lines, random bytes. (The Boolean test of the precondition runs
     every line in the kernel to obtain the next state; `eval` / `perft` on a real position are left out of THIS
     list only because kernel evaluation of the `Int` tables takes half a minute — they are not `position` lines and
@@ -329,13 +332,13 @@ def modelSession : List Bytes :=
   [strBytes "eval", strBytes "position startpos moves e2e4 e7e5 g1f3", strBytes "go depth",
    strBytes "position fen r3k2r/8/8/8/8/8/8/R3K2R w KQkq - 0 1 moves e1g1 e8c8", strBytes "tperft 1",
    strBytes "position garbage moves e2e4", [255, 0, 300, 32, 9],
-   strBytes "position fen 4k3/8/8/8/8/8/8/4RK2 b - - 0 1", strBytes "isready"]
+   strBytes "position fen 4k3/8/8/8/8/8/8/4RK2 b - - 0 1",
+   strBytes "position fen 4k3/8/8/8/8/8/8/4RK2 w - - 0 1 moves e1e8", strBytes "tperft 1", strBytes "isready"]
 
 set_option maxRecDepth 100000 in
 theorem modelSession_pre :
-    SessionPreF (modelOps (fun _ mid _ => mid) (fun _ => pure [])) LegalGen MM.OppSafe UciState.init modelSession :=
-  sessionPreF_of_B (kt := Killers.empty) (f := oppSafeB) (fun _ h => oppSafe_of_B h) modelSession UciState.init
-    (by decide +kernel)
+    SessionPre (modelOps (fun _ mid _ => mid) (fun _ => pure [])) LegalGen UciState.init modelSession :=
+  sessionPre_of_genB (kt := Killers.empty) modelSession UciState.init (by decide +kernel)
 
 example : ∃ st' outs, uciRun (modelOps (fun _ mid _ => mid) (fun _ => pure [])) UciState.init modelSession =
     .ok (st', outs) ∧ StateOk Total.G st' ∧ outs.length = modelSession.length :=
@@ -353,9 +356,17 @@ example (blend : Blend) (tostr : Position → M Bytes) (line : Bytes)
   obtain ⟨st', out, h, _⟩ := uciStep_total_model_of_not_position blend tostr hst hnp
   exact ⟨st', out, h⟩
 
-/-- the precondition is not vacuous on the real operations either: the witness line fails it -/
-example : ¬ PreF (modelOps (fun _ mid _ => mid) (fun _ => pure [])) LegalGen MM.OppSafe UciState.init
-    (strBytes "position fen 4k3/8/8/8/8/8/8/4RK2 w - - 0 1") :=
-  fenCheckWitness_not_preF rfl
+/-- the former witness line satisfies the precondition (the former `PreF` did not hold of it; now nothing is
+    asked of a FEN) and is processed without panic -/
+example : ∃ st' out, uciStep (modelOps (fun _ mid _ => mid) (fun _ => pure [])) UciState.init
+    (strBytes "position fen 4k3/8/8/8/8/8/8/4RK2 w - - 0 1 moves e1e8") = .ok (st', out) := by
+  obtain ⟨st', out, h, _⟩ := uciStep_total_model (fun _ mid _ => mid) (fun _ => pure []) (stateOk_init _)
+    (strBytes "position fen 4k3/8/8/8/8/8/8/4RK2 w - - 0 1 moves e1e8")
+    (pre_of_genB (kt := Killers.empty) (by decide +kernel))
+  exact ⟨st', out, h⟩
+
+/-- the precondition is not vacuous on the real operations: a move list with an illegal move fails the Boolean test -/
+example : preFB (modelOps (fun _ mid _ => mid) (fun _ => pure [])) Killers.empty (fun _ => true) UciState.init
+    (strBytes "position startpos moves e2e4 e1e8") = false := by decide +kernel
 
 end Magog.Props.C17
